@@ -173,6 +173,9 @@ def fuzz_campaign(seed, runs, jobs=16):
 
 
 def replay(case):
+    if case.get("part") == "history":
+        from harness.checks import c15
+        return c15.replay(case)
     chk = Checker()
     try:
         m = ir.run_program(case, after=chk)
@@ -210,6 +213,11 @@ def run(ctx):
     total.extra["shard_seeds"] = [s["seed"] for s in shards]
     total.extra["cell_sweep"] = {"cells": len(cells), "modes": MODES, "grids": [list(g) for g in grids]}
     total.merge_json(core.run_shards_optimised("harness.checks.c01", "shard", [dict(seed=ctx.seed * 1000 + 800 + i, n_examples=60) for i in range(4)]).to_json())
+    # scale: completeness of secret-index reads and writes on arrays of 31 ... 257 elements and 65x2 / 2x65 matrices (the histories
+    # of C15's long-array part; here only "the recorded witness satisfies every emitted constraint" is at stake)
+    from harness.checks import c15
+    big = c15.large_cases(ctx.tier) + [c for c in c15.large_cases("thorough") if c["shape"] in ([128], [130], [257])]
+    total.merge_json(core.run_shards("harness.checks.c15", "large_shard", [dict(cases=big[i::8]) for i in range(8)]).to_json())
     if ctx.tier == "thorough":
         fz, note = fuzz_campaign(ctx.seed, 20000)
         total.merge_json(fz.to_json())
